@@ -672,3 +672,15 @@ def c43(ctx):
         #  the quick tier validates every 8th event of the other back ends and compares all of them)
         across_backends(ctx, cs, tr, fl, every=1 if ctx.thorough else 8, skip_spec=() if ctx.thorough else ("base",),
                         shards=5, any_valid=("factor_rho", "factor_pm1"))
+
+
+@plan("C14")
+def c14(ctx):
+    ctx.rule = ("TLC enumerates expressions in x, y (the pool of C15: arithmetic, every special-cased power in every "
+                "embedding, 27 functions, atan2, max/min, piecewise; nested one level) in batches of 25 at two (three) "
+                "bindings; in a build configured with LLVM 14 every expression is compiled by LLVMDoubleVisitor at the "
+                "four optimisation levels with and without symbolic CSE, by the single and extended precision visitors, "
+                "saved / loaded into a fresh object, and all expressions of a batch as the outputs of one function on an "
+                "object that is then initialised again; TLC validates every returned value against the exact value "
+                "(module Dbl) where the specification has one and against the library's own evaluation")
+    simple(ctx, "MC_C14", "Trace_C14", cfg="llvm", floor=0.5)
